@@ -470,6 +470,13 @@ func c18Upload(c *Ctx, pr *PropertyRun, prop string) {
 						if e, isEx := x.X.(*ssa.Extract); isEx {
 							_, okv = e.Tuple.(*ssa.Call)
 						}
+						// ... or what a helper of the library hands on, when
+						// every return of the helper is nil or such an error
+						if c2, isCall := x.X.(*ssa.Call); isCall {
+							if callee := c2.Common().StaticCallee(); callee != nil && inLib(callee) {
+								okv = returnsOnlyReportedErrors(callee, 0)
+							}
+						}
 					}
 					if !okv {
 						// dominated by the non-nil edge of a test of an error
@@ -894,15 +901,29 @@ func pooledObjectsRule(c *Ctx, r *RuleResult) {
 						if x == site {
 							continue
 						}
+						// handed to an HTTP request as its body: the transport
+						// may still be reading it after Do has returned (an
+						// early answer), i.e. after the deferred Put
+						for ai, a := range x.Common().Args {
+							if a == v && becomesRequestBody(x.Common(), ai, 0) {
+								escapes = true
+							}
+						}
 						// handed to a call whose result leaves the function
 						for _, a := range x.Common().Args {
 							if a == v {
 								for _, r2 := range refsOf(x) {
 									switch y := r2.(type) {
 									case *ssa.Return:
-										escapes = true
+										// (an error the call reports does not
+										// refer to the object's memory)
+										if x.Type() != nil && !isErrorType(x.Type()) && mayHoldPointer(x.Type()) {
+											escapes = true
+										}
 									case *ssa.Extract:
-										visit(y, depth+1)
+										if !isErrorType(y.Type()) && mayHoldPointer(y.Type()) {
+											visit(y, depth+1)
+										}
 									}
 								}
 								// a result that can alias the object's memory
@@ -933,4 +954,82 @@ func pooledObjectsRule(c *Ctx, r *RuleResult) {
 			}
 		})
 	}
+}
+
+// returnsOnlyReportedErrors: every return of fn (a function returning only an
+// error) is nil, the error result next to another call's results, or the
+// result of a library function of which the same holds.
+func returnsOnlyReportedErrors(fn *ssa.Function, depth int) bool {
+	if fn == nil || len(fn.Blocks) == 0 || depth > 2 || fn.Signature.Results().Len() != 1 || !isErrorType(fn.Signature.Results().At(0).Type()) {
+		return false
+	}
+	var ok func(v ssa.Value, d int) bool
+	ok = func(v ssa.Value, d int) bool {
+		if d > 4 {
+			return false
+		}
+		if isNilConst(v) {
+			return true
+		}
+		switch x := v.(type) {
+		case *ssa.Extract:
+			_, isCall := x.Tuple.(*ssa.Call)
+			return isCall
+		case *ssa.Phi:
+			for _, e := range x.Edges {
+				if !ok(e, d+1) {
+					return false
+				}
+			}
+			return true
+		case *ssa.Call:
+			if callee := x.Common().StaticCallee(); callee != nil && inLib(callee) {
+				return returnsOnlyReportedErrors(callee, depth+1)
+			}
+		}
+		return false
+	}
+	n := 0
+	for _, b := range fn.Blocks {
+		ret, isRet := b.Instrs[len(b.Instrs)-1].(*ssa.Return)
+		if !isRet {
+			continue
+		}
+		n++
+		if len(ret.Results) != 1 || !ok(ret.Results[0], 0) {
+			return false
+		}
+	}
+	return n > 0
+}
+
+// becomesRequestBody: argument ai of the call is the body of an HTTP request
+// (net/http.NewRequest*, or a library function that passes it on as one).
+func becomesRequestBody(cc *ssa.CallCommon, ai int, depth int) bool {
+	if depth > 2 {
+		return false
+	}
+	callee := cc.StaticCallee()
+	if callee == nil {
+		return false
+	}
+	switch fullFnName(callee) {
+	case "net/http.NewRequest":
+		return ai == 2
+	case "net/http.NewRequestWithContext":
+		return ai == 3
+	}
+	if !inLib(callee) || len(callee.Blocks) == 0 || ai >= len(callee.Params) {
+		return false
+	}
+	prm := callee.Params[ai]
+	found := false
+	eachCall(callee, func(site ssa.CallInstruction) {
+		for j, a := range site.Common().Args {
+			if a == ssa.Value(prm) && becomesRequestBody(site.Common(), j, depth+1) {
+				found = true
+			}
+		}
+	})
+	return found
 }
